@@ -35,7 +35,12 @@ func (h logsResourceHandler) ResolveFilter(_ common.ResourceQuery[any], operator
 	case "id":
 		return fmt.Sprintf("id %s ?", common.ConvertOperatorToSQL(operator)), []any{value}, nil
 	case "type":
-		return fmt.Sprintf("type %s ?", common.ConvertOperatorToSQL(operator)), []any{value}, nil
+		switch operator {
+		case queries.OperatorIn:
+			return "type IN (?)", []any{bun.In(value)}, nil
+		default:
+			return fmt.Sprintf("type %s ?", common.ConvertOperatorToSQL(operator)), []any{value}, nil
+		}
 	default:
 		return "", nil, fmt.Errorf("unknown key '%s' when building query", property)
 	}
